@@ -65,8 +65,9 @@ HPRE = '  { unsigned int sg; xt_sigma = sg; }'
 def jobs(tier):
     out = []
     DOM = 2 if tier == 'quick' else 3
-    d = {'U_BITS': 16, 'CM_STR_CAP': 6, 'XT_MAXV': 8, 'XT_MAXLITS': 3, 'XT_MAXCL': 12, 'XT_DOM': DOM}
-    caps = {'vec_us': 8, 'vec_lit': 3, 'umap_var_valuep_lit': DOM, 'vec_umap_var_valuep_lit': 3, 'umap_str_lit': 2, 'umap_U_set_U': DOM + 1, 'set_U': 1,
+    MAXV = 4 + DOM + 3     # existing variables + one per value + the two of new_exct_one (its at-most-one's and its own) + 1
+    d = {'U_BITS': 16, 'CM_STR_CAP': 6, 'XT_MAXV': MAXV, 'XT_MAXLITS': 3, 'XT_MAXCL': 12, 'XT_DOM': DOM}
+    caps = {'vec_us': MAXV, 'vec_lit': 3, 'umap_var_valuep_lit': DOM, 'vec_umap_var_valuep_lit': 3, 'umap_str_lit': 2, 'umap_U_set_U': DOM + 1, 'set_U': 1,
             'vec_var_valuep': DOM, 'uset_var_valuep': DOM}
     FORCE = ['std::vector<smt::lit>', 'std::vector<unsigned short>', 'std::vector<smt::var_value *>', 'std::unordered_set<smt::var_value *>']
     FRESH = '__CPROVER_is_fresh(self, sizeof(*self)) && __CPROVER_is_fresh(%s, sizeof(*%s))' % (SAT, SAT)
